@@ -4,7 +4,7 @@
   event per rollapp) and its preservation by the primitive transformers.
 -/
 import DymVerif.Lemmas.CoreCustody3
-namespace DymVerif.Core
+namespace DymVerif.Core.LevNs
 
 -- ---------------------------------------------------------------- getRa / setRa
 
@@ -298,4 +298,4 @@ theorem Lev.reset {s : St} {id : Nat} {r r' : Rollapp} (h : Lev s) (hg : getRa s
   show delEvent s.lev r'.evH r'.id = _
   rw [he, hid']
 
-end DymVerif.Core
+end DymVerif.Core.LevNs
